@@ -235,18 +235,15 @@ Definition list_parts (n : node) : list node * nat :=
    Some (vec', alloc', index of the anchor) or None = EINVAL *)
 Definition list_extend (vec : list node) (alloc : nat) (i : Z) : option (list node * nat * nat) :=
   if (i <? 0)%Z then None
-  else
-    let n := Z.to_nat i in
-    if Nat.ltb n (length vec) then Some (vec, alloc, n)
-    else if (i =? INT_MAX)%Z then None                        (* fix D39 *)
-    else Some (vec ++ repeat NNull (S n - length vec), check_allocation alloc (S n), n).
+  else if (i <? Z.of_nat (length vec))%Z then Some (vec, alloc, Z.to_nat i)
+  else if (i =? INT_MAX)%Z then None                          (* fix D39 *)
+  else Some (vec ++ repeat NNull (S (Z.to_nat i) - length vec), check_allocation alloc (S (Z.to_nat i)),
+             Z.to_nat i).
 Definition list_insert (vec : list node) (alloc : nat) (i : Z) : option (list node * nat * nat) :=
   if (i <? 0)%Z then None
-  else
-    let n := Z.to_nat i in
-    if Nat.ltb n (length vec)
-    then Some (insert_nth n NNull vec, check_allocation alloc (S (length vec)), n)
-    else list_extend vec alloc i.
+  else if (i <? Z.of_nat (length vec))%Z
+       then Some (insert_nth (Z.to_nat i) NNull vec, check_allocation alloc (S (length vec)), Z.to_nat i)
+       else list_extend vec alloc i.
 Definition list_append (vec : list node) (alloc : nat) : list node * nat * nat :=
   (vec ++ [NNull], check_allocation alloc (S (length vec)), length vec).
 
@@ -309,10 +306,12 @@ Fixpoint descend_get (es : list expr) (n : node) : ecode + node :=
     | NNull => inl ENOENT
     | NList vec _ =>
       if (i <? 0)%Z then inl EINVAL
-      else match nth_error vec (Z.to_nat i) with
-           | Some c => descend_get es' c
-           | None => inl ENOENT
-           end
+      else if (i <? Z.of_nat (length vec))%Z
+           then match nth_error vec (Z.to_nat i) with
+                | Some c => descend_get es' c
+                | None => inl ENOENT
+                end
+           else inl ENOENT
     | _ => inl EINVAL
     end
   | E_LIST_INSERT _ :: _ | E_LIST_APPEND :: _ =>
